@@ -15,5 +15,7 @@ open SamVerif.Useful
 #print axioms useful_exact
 #print axioms iflet_exact
 #print axioms match_exact
+#print axioms checker_match_exact
+#print axioms checker_iflet_exact
 #print axioms inhabited_certificate
 #print axioms useful_iff_counterexample
